@@ -1,6 +1,7 @@
 """C16 - use_phf is a pure optimisation of EnumString."""
 import random, copy
-from .. import core, parsecheck as PC, strcorpus as SC
+from .. import core, pipe, parsecheck as PC, strcorpus as SC
+from .. import defs as D
 from ..defs import variant, enum, field
 
 PROP = "C16"
@@ -61,6 +62,14 @@ def candidates(rng, n):
     # field-less enums may still have (const) generic parameters
     base.append(enum(0, [variant("A"), variant("B", ser=["b", "bee"]), variant("C", aci=1)], generics="const"))
     base.append(enum(0, [variant("Only")], generics="constdef"))
+    # variants named like items of the standard prelude, glob-imported into the scope of the derive (`pub use self::E::*;`, which
+    # takes precedence over the prelude there): what the generated code mentions must still mean what it meant
+    base.append(enum(0, [variant("None"), variant("Some"), variant("All", ser=["all", "every"])], glob=True))
+    base.append(enum(0, [variant("Ok", aci=1), variant("Err"), variant("Option"), variant("Result", dis=True)], glob=True))
+    base.append(enum(0, [variant("Some", ser=["some"]), variant("Default"), variant("Clone"), variant("Other", "tuple", [field("String")], default=True)], glob=True))
+    # the inner value of the catch-all only has to be From<&str> (and Clone for the table): Rc<str> is neither Send nor Sync
+    base.append(enum(0, [variant("Red"), variant("Blue", ser=["b", "blue"], aci=1), variant("Other", "tuple", [field("rcstr")], default=True)]))
+    base.append(enum(0, [variant("Other", "named", [field("rcstr", "text")], default=True), variant("Red")]))
     for E in SC.dictionary(1):
         base.append(fieldless(copy.deepcopy(E)))
     for k in range(n):
@@ -97,10 +106,67 @@ def key(E, facts, text):
 def module(E):
     from .. import strgen as SG
     src = SG.parse_module(E)
+    import re
+    decl = D.print_enum(E, ["EnumString"])
+    camel = all(re.match(r"^[A-Z][A-Za-z0-9]*$", core.uncp(v["id"])) for v in E["variants"])
+    if E.get("glob"):
+        # the enum lives in a module of its own that glob-imports its variants; the drivers outside only see the type
+        assert decl in src
+        inner = "\n".join("    " + l for l in decl.splitlines())
+        src = src.replace(decl, "mod glob_scope {\n%s\n    #[allow(unused_imports)]\n    pub use self::%s::*;\n}\npub use glob_scope::%s;"
+                          % (inner, E["name"], E["name"]))
+    elif camel and E["id"] % 3 != 1 and decl in src and not E.get("via_macro"):
+        # a scope that denies naming-style lints (as `#![deny(warnings)]` crates do): what the derive generates for a well-named enum
+        # must not trip them - with use_phf no more than without
+        inner = "\n".join("    " + l for l in decl.splitlines())
+        src = src.replace(decl, "mod strict_scope {\n    #![deny(nonstandard_style)]\n%s\n}\npub use strict_scope::%s;" % (inner, E["name"]))
     # the same scope holds another use_phf enum and user items called PHF / phf: generated statics must not collide
     src += ("#[derive(Debug, Clone, PartialEq, strum::EnumString)]\n#[strum(use_phf)]\npub enum Sibling%d { Left, #[strum(serialize = \"r\")] Right }\n"
             "pub const PHF: u8 = 1;\npub fn phf() -> u8 { PHF }\n" % E["id"])
     return src
+
+
+DIRECT = r'''#![allow(warnings)]
+// the first set-up the README documents: the derives come from strum_macros itself, strum (here with its `phf` feature, WITHOUT `derive`)
+// supplies the traits and the support code the generated parser refers to
+use std::str::FromStr;
+#[derive(Debug, Clone, PartialEq, strum_macros::EnumString)]
+#[strum(use_phf)]
+enum WithMap { Red, #[strum(serialize = "b", serialize = "blue", ascii_case_insensitive)] Blue, #[strum(disabled)] Off, #[strum(default)] Other(String) }
+#[derive(Debug, Clone, PartialEq, strum_macros::EnumString)]
+enum Plain { Red, #[strum(serialize = "b", serialize = "blue", ascii_case_insensitive)] Blue, #[strum(disabled)] Off, #[strum(default)] Other(String) }
+#[derive(Debug, Clone, PartialEq, strum_macros::EnumString)]
+#[strum(use_phf)]
+enum NoCatchAll { One, Two }
+fn main() {
+    for s in ["Red", "red", "b", "B", "BLUE", "bLuE", "Off", "", "zz"] {
+        let a = match WithMap::from_str(s) { Ok(WithMap::Red) => 1, Ok(WithMap::Blue) => 2, Ok(WithMap::Off) => 3, Ok(WithMap::Other(t)) => 4 + t.len(), Err(_) => 0 };
+        let b = match Plain::from_str(s) { Ok(Plain::Red) => 1, Ok(Plain::Blue) => 2, Ok(Plain::Off) => 3, Ok(Plain::Other(t)) => 4 + t.len(), Err(_) => 0 };
+        if a != b { println!("DIFF {:?} {} {}", s, a, b); }
+    }
+    if NoCatchAll::from_str("Two") != Ok(NoCatchAll::Two) || NoCatchAll::from_str("two").is_ok() { println!("DIFF NoCatchAll"); }
+    println!("DONE");
+}
+'''
+
+
+def direct_config(rep):
+    """use_phf must also be a pure optimisation where the derives are taken from strum_macros directly (strum built with `phf` only)"""
+    pipe.write_crate("c16direct", {"main.rs": DIRECT}, strum_features=("phf",),
+                     extra_deps='strum_macros = { path = "%s/strum_macros" }\n' % core.REPO)
+    ok, diags, stderr, exe = core.cargo_build("c16direct")
+    if not ok:
+        msgs = [d.get("message", "") for d in diags if d.get("level") == "error"]
+        rep.violation(dict(kind="compile_error", phf=True, config="strum_macros_direct", const_generic=False),
+                      "a use_phf enum does not compile where the derives come from strum_macros directly (strum with the phf feature, without derive): "
+                      + "; ".join(msgs)[:300], dict(definition=dict(id=0), errors=msgs, files={"main.rs": DIRECT}))
+        return
+    rc, out, err = core.run_bin(exe["c16direct"], [])
+    if rc != 0 or "DIFF" in out or "DONE" not in out:
+        rep.violation(dict(kind="parse_mismatch", phf=True, config="strum_macros_direct", const_generic=False),
+                      "the phf-backed parser differs from the plain one (derives from strum_macros directly): " + (out + err)[-300:],
+                      dict(definition=dict(id=0), output=out, files={"main.rs": DIRECT}))
+    rep.cov["direct_config"] = "strum (features: phf) + strum_macros used directly: 3 enums, 9 inputs compared with the plain twin"
 
 
 def run(tier, seed, rep):
@@ -110,6 +176,7 @@ def run(tier, seed, rep):
                            lambda: model(tier), features=("derive", "phf"), mismatch_key=key, module_fn=module,
                            in_domain=lambda f: f["wf"] and (f["no"] or f["pc"]),
                            what="phf-backed parser differs from the plain one (ParseSpec)")
+    direct_config(rep)
     twins = sum(1 for E in r["defs"] if E.get("twin_of") in r["by_id"])
     rep.cov["twin_pairs"] = twins
     rep.cov["rule"] = ("field-less definitions (unit variants + optional default catch-all) of C01's domain, each built with and without "
